@@ -1002,7 +1002,7 @@ class Gen:
              ("switch", 0.7 * self.knob("conds") if depth > 0 else 0), ("jump", 0.8 * self.knob("conds")),
              ("ptr", 1.5 * self.knob("ptrs")), ("call", 1.5 * self.knob("calls") if c.helpers else 0),
              ("related", (4.0 if self.profile == "c03" else 0.3) if depth > 0 else 0),
-             ("c04", 5.0 if self.profile in ("c04safe", "c04bug") else 0)]
+             ("c04", 9.0 if self.profile in ("c04safe", "c04bug") else 0)]
         tot = sum(x for _, x in w)
         x = r.random() * tot
         for name, wt in w:
